@@ -252,6 +252,115 @@ pub fn guard<T>(entry: &str, f: impl FnOnce() -> T) -> Result<T, Fail> {
 }
 
 // ------------------------------------------------------------------------------------------
+// Crash capture: a check that dies by a signal (abort from a non-unwinding panic, stack overflow,
+// use of an unmapped page) still reports the case it was running.
+
+const SLOTS: usize = 64;
+static CUR_CASE_PTR: [std::sync::atomic::AtomicPtr<u8>; SLOTS] = {
+    #[allow(clippy::declare_interior_mutable_const)]
+    const Z: std::sync::atomic::AtomicPtr<u8> = std::sync::atomic::AtomicPtr::new(std::ptr::null_mut());
+    [Z; SLOTS]
+};
+static CUR_CASE_LEN: [std::sync::atomic::AtomicUsize; SLOTS] = {
+    #[allow(clippy::declare_interior_mutable_const)]
+    const Z: std::sync::atomic::AtomicUsize = std::sync::atomic::AtomicUsize::new(0);
+    [Z; SLOTS]
+};
+static CRASH_PATHS: std::sync::OnceLock<Vec<std::ffi::CString>> = std::sync::OnceLock::new();
+static CRASH_LINES: std::sync::OnceLock<Vec<Vec<u8>>> = std::sync::OnceLock::new();
+
+thread_local! {
+    static MY_SLOT: Cell<usize> = const { Cell::new(usize::MAX) };
+}
+
+extern "C" fn on_fatal_signal(sig: libc::c_int) {
+    unsafe {
+        let slot = MY_SLOT.try_with(|s| s.get()).unwrap_or(usize::MAX);
+        if slot < SLOTS {
+            let p = CUR_CASE_PTR[slot].load(Ordering::SeqCst);
+            let n = CUR_CASE_LEN[slot].load(Ordering::SeqCst);
+            if let (Some(paths), Some(lines)) = (CRASH_PATHS.get(), CRASH_LINES.get()) {
+                if !p.is_null() {
+                    let fd = libc::open(paths[slot].as_ptr(), libc::O_CREAT | libc::O_WRONLY | libc::O_TRUNC, 0o644);
+                    if fd >= 0 {
+                        let _ = libc::write(fd, p as *const libc::c_void, n);
+                        let _ = libc::close(fd);
+                    }
+                    let l = &lines[slot];
+                    let _ = libc::write(1, l.as_ptr() as *const libc::c_void, l.len());
+                    libc::_exit(1);
+                }
+            }
+        }
+        // not inside a case: die the usual way
+        let _ = libc::signal(sig, libc::SIG_DFL);
+        let _ = libc::raise(sig);
+    }
+}
+
+/// Installs the fatal-signal handlers for a run of property `id`.
+pub fn install_crash_capture(id: &str) {
+    let dir = root().join("out").join("replays");
+    let _ = std::fs::create_dir_all(&dir);
+    let pid = std::process::id();
+    let mut paths = Vec::new();
+    let mut lines = Vec::new();
+    for s in 0..SLOTS {
+        let p = dir.join(format!("{}-crash-{}-{}-{}.json", id, profile_name(), pid, s));
+        lines.push(format!("VIOLATION property={} replay={} key={}:process-killed-by-signal (abort / stack overflow / invalid memory access while running this case)\n", id, p.display(), id).into_bytes());
+        paths.push(std::ffi::CString::new(p.to_string_lossy().as_bytes()).unwrap());
+    }
+    let _ = CRASH_PATHS.set(paths);
+    let _ = CRASH_LINES.set(lines);
+    unsafe {
+        for sig in [libc::SIGABRT, libc::SIGSEGV, libc::SIGBUS, libc::SIGILL, libc::SIGFPE] {
+            let mut sa: libc::sigaction = std::mem::zeroed();
+            sa.sa_sigaction = on_fatal_signal as usize;
+            sa.sa_flags = libc::SA_ONSTACK;
+            let _ = libc::sigemptyset(&mut sa.sa_mask);
+            let _ = libc::sigaction(sig, &sa, std::ptr::null_mut());
+        }
+    }
+}
+
+/// Remembers the case a worker is about to run (as a ready-made replay file).
+pub fn note_current_case<C: Serialize>(slot: usize, prop: &str, case: &C) {
+    if slot >= SLOTS || CRASH_PATHS.get().is_none() {
+        return;
+    }
+    MY_SLOT.with(|s| s.set(slot));
+    let rf = ReplayFile {
+        property: prop.to_string(),
+        key: format!("{prop}:process-killed-by-signal"),
+        detail: "the check process died by a signal while running this case".to_string(),
+        profile: profile_name().to_string(),
+        case: serde_json::to_value(case).unwrap_or(Value::Null),
+    };
+    let bytes = serde_json::to_vec(&rf).unwrap_or_default().into_boxed_slice();
+    let len = bytes.len();
+    let ptr = Box::into_raw(bytes) as *mut u8;
+    let old_len = CUR_CASE_LEN[slot].swap(len, Ordering::SeqCst);
+    let old = CUR_CASE_PTR[slot].swap(ptr, Ordering::SeqCst);
+    if !old.is_null() {
+        unsafe {
+            drop(Box::from_raw(std::slice::from_raw_parts_mut(old, old_len)));
+        }
+    }
+}
+
+pub fn clear_current_case(slot: usize) {
+    if slot < SLOTS {
+        let old_len = CUR_CASE_LEN[slot].swap(0, Ordering::SeqCst);
+        let old = CUR_CASE_PTR[slot].swap(std::ptr::null_mut(), Ordering::SeqCst);
+        if !old.is_null() {
+            unsafe {
+                drop(Box::from_raw(std::slice::from_raw_parts_mut(old, old_len)));
+            }
+        }
+    }
+}
+
+// ------------------------------------------------------------------------------------------
 // Known findings
 
 #[derive(Clone, Debug, Serialize, Deserialize)]
@@ -494,7 +603,9 @@ fn replay_committed<P: Prop>(p: &P, known: &[KnownFinding]) -> (Vec<String>, Vec
             continue;
         };
         n += 1;
+        note_current_case(63, id, &case);
         let out = p.check(&case);
+        clear_current_case(63);
         if let Some(f) = out.fail {
             if open.contains(&f.key) {
                 if seen_open.insert(f.key.clone()) {
@@ -543,6 +654,7 @@ pub fn run_prop_shared<P: Prop>(p: &P, args: &RunArgs) -> Part {
 
     let done = Arc::new(AtomicBool::new(false));
     start_watchdog(id, args.tier.pick(120, 900), done.clone());
+    install_crash_capture(id);
 
     // 1. committed witnesses and regressions
     CASE_CLOCK[63].store(now_ms(), Ordering::SeqCst);
@@ -590,6 +702,7 @@ pub fn run_prop_shared<P: Prop>(p: &P, args: &RunArgs) -> Part {
                         break;
                     }
                     CASE_CLOCK[w].store(now_ms(), Ordering::SeqCst);
+                    note_current_case(w, p.id(), &en[i]);
                     let out = p.check(&en[i]);
                     CASE_CLOCK[w].store(0, Ordering::SeqCst);
                     local.record(&en[i], &out, 2);
@@ -653,6 +766,7 @@ pub fn run_prop_shared<P: Prop>(p: &P, args: &RunArgs) -> Part {
                                 return Ok(());
                             }
                             CASE_CLOCK[w].store(now_ms(), Ordering::SeqCst);
+                            note_current_case(w, p.id(), &case);
                             let out = p.check(&case);
                             CASE_CLOCK[w].store(0, Ordering::SeqCst);
                             let shrinking = first_fail.borrow().is_some();
@@ -919,7 +1033,10 @@ pub fn replay_one<P: Prop>(p: &P, path: &Path) -> i32 {
     };
     let known = load_known();
     let open = open_keys(&known, p.id());
+    install_crash_capture(p.id());
+    note_current_case(0, p.id(), &case);
     let out = p.check(&case);
+    clear_current_case(0);
     println!("labels: {:?} nontrivial: {}", out.labels, out.nontrivial);
     match out.fail {
         None => {
